@@ -3,7 +3,7 @@ import re
 
 from ..linetables import fn_table, struct_iter_table
 from ..pe import show_toks
-from ..src import Inconclusive, render, walk
+from ..src import render_pat, Inconclusive, render, walk
 from ..tables import ATTR, EXPAND, direction, is_ref_kind
 
 LEVEL = "other"
@@ -377,8 +377,15 @@ def r6_variant_no_post_init(chk):
         if n["k"] == "Arm":
             from ..src import render_pat
             pushes.append((render_pat(n["pat"]), "fragments.push" in render(n["body"])))
-    ok = ("DataTypeMember::Field(f)", True) in pushes and not any(p.startswith("DataTypeMember::Variant") and b for p, b in pushes)
-    chk.expect("R6", "struct_post_init/fields-only", ok, EXPAND, fi.line, "a bare #[parent] on a variant would produce a post-init body in variant mode", found=pushes)
+    def produces(b):
+        t = render(b)
+        return "fragments.push" in t or "render_parent(" in t
+    pushes = [(p_, produces(n_["body"])) for n_ in walk(fi.body) if n_["k"] == "Arm" for p_ in [render_pat(n_["pat"])]]
+    # also filter_map / map closures matching on the member kind
+    field_ok = any(p.startswith("DataTypeMember::Field") and b for p, b in pushes)
+    variant_bad = any(p.startswith("DataTypeMember::Variant") and b for p, b in pushes)
+    chk.shape("R6", "struct_post_init/fields-only", field_ok and not variant_bad, variant_bad, EXPAND, fi.line,
+              what="a bare #[parent] on a variant would produce a post-init body in variant mode", found=pushes)
 
 
 def run(chk):
